@@ -93,13 +93,29 @@ def dtype_cases(ctx):
         obs.append(idx)
         cases.append((1601, [gen.rat(lo), gen.rat(hi)]))
     res = ctx.model(cases)
-    for (lo, hi), idx, r in zip(kept, obs, res):
+    # the float-faithful model (tag 1605): mantissa bits of the type of the UPPER bound
+    def mant(v):
+        if isinstance(v, np.float32):
+            return 24
+        if isinstance(v, (float, np.floating)):
+            return 53
+        return 0
+    res_f = ctx.model([(1605, [mant(hi), gen.rat(lo), gen.rat(hi)]) for lo, hi in kept])
+    for (lo, hi), idx, r, rf in zip(kept, obs, res, res_f):
         desc = {'kind': 'choose_int_dtype', 'lo': repr(lo), 'hi': repr(hi), 'lo_type': type(lo).__name__,
                 'hi_type': type(hi).__name__, 'impl': idx, 'model': r}
         ctx.count(('dtype', repr(lo), repr(hi), type(lo).__name__, type(hi).__name__), nontrivial=True)
         ctx.dist('dtype_chosen', idx)
         ctx.sample(desc, limit=2)
         ok, first = spec_dtype(lo, hi, idx)
+        desc['model_float_faithful'] = rf
+        if rf != [0, idx]:
+            # correspondence (a): the model of what numpy really compares must agree on EVERY input,
+            # the float boundaries of finding F5 included
+            ctx.disagreements_checked += 1
+            d2 = dict(desc)
+            d2['class'] = 'corr:IntDtype.choose_int_dtype_f'
+            ctx.violation('float-faithful model and implementation of choose_int_dtype disagree', d2, no_input=ok)
         if r != [0, idx] or not ok:
             ctx.disagreements_checked += 1
             desc['spec_first_fit'] = first
